@@ -5,6 +5,11 @@ use std::collections::{HashMap, HashSet};
 #[derive(Debug, Clone, Default)] pub struct PromptRecord;
 pub struct WorkingLogStandIn(pub InitialAttributions);
 impl WorkingLogStandIn { pub fn read_initial_attributions(&self) -> InitialAttributions { self.0.clone() } }
+// stand-ins with exactly what the original checkpoint-scan loop touches: an entry's file, and whether the checkpoint's
+// entries need post-processing (the real predicate looks at checkpoint kinds and attributions)
+pub struct Entry { pub file: String }
+pub struct Checkpoint { pub entries: Vec<Entry>, pub ai: bool }
+pub fn checkpoint_entry_requires_post_processing(c: &Checkpoint, _e: &Entry) -> bool { c.ai }
 include!("@ITEMS@");
 use std::panic::{catch_unwind, AssertUnwindSafe};
 struct Ctx { evaluated: u64, failed: std::collections::HashSet<String> }
@@ -26,7 +31,12 @@ fn chk(c: &mut Ctx, pm: u32, im: u32) {
     for f in pick(im) { init.files.insert(f, vec![LineAttribution { start_line: 1, end_line: 3, author_id: "h1".into(), overrode: None }]); }
     let wl = WorkingLogStandIn(init);
     let before: HashSet<String> = pick(pm).into_iter().collect();
-    match guarded(|| region_pc_initial_pathspecs(&wl, before.clone())) {
+    // the files `pm` come from an AI checkpoint; a human-only checkpoint touching every file must not select anything
+    let log = || vec![
+        Checkpoint { entries: FILES.iter().map(|f| Entry { file: f.to_string() }).collect(), ai: false },
+        Checkpoint { entries: pick(pm).into_iter().map(|f| Entry { file: f }).collect(), ai: true },
+    ];
+    match guarded(|| region_pc_initial_pathspecs(&wl, log())) {
         Ok(after) => {
             let mut show_v: Vec<String> = after.iter().cloned().collect(); show_v.sort(); let show = format!("{{{}}}", show_v.join(", "));
             for f in pick(im) { if !after.contains(&f) { c.fail("region_pc_initial_pathspecs", "ensures#0", input.clone(), format!("re-examined files = {}", show), format!("{} (named in INITIAL) is re-examined", f)); } }
